@@ -1617,6 +1617,12 @@ func (l *lexer) emit(typ int) {
 		}
 	}
 	l.word = nil
+	select {
+	case <-l.cancel:
+		// an error has been recorded
+		panic(bailout{})
+	default:
+	}
 	switch verifYield(verifPreSend, l) {
 	case verifForceSend:
 		l.token <- tok
